@@ -91,7 +91,8 @@ def deep_equal(a, b):
     if isinstance(a, pd.Index) or isinstance(b, pd.Index):
         return isinstance(a, pd.Index) and isinstance(b, pd.Index) and a.equals(b) and a.dtype == b.dtype
     if isinstance(a, np.ndarray) or isinstance(b, np.ndarray):
-        return isinstance(a, np.ndarray) and isinstance(b, np.ndarray) and a.dtype == b.dtype and a.shape == b.shape and np.array_equal(a, b, equal_nan=a.dtype.kind == "f")
+        # the same type: an array class of its own (a memory map, a matrix, a masked array) is not "an equal value of the same type"
+        return type(a) is type(b) and a.dtype == b.dtype and a.shape == b.shape and np.array_equal(a, b, equal_nan=a.dtype.kind == "f")
     if type(a) is not type(b):
         return False
     if isinstance(a, float):
